@@ -29,6 +29,11 @@ TREE = [
     "roo/r.txt",
     "outside.txt",
     "abs/path/to/secret",
+    # siblings that differ from the root ("root") only in letter case (the fixture lives on a case-sensitive filesystem)
+    "Root/cs.txt",
+    "ROOT/index.html",
+    "ROOT/up.txt",
+    "rOOt",
 ]
 EMPTY_DIRS = ["root/emptydir"]
 
@@ -63,6 +68,8 @@ class Tree:
             self.content[p] = data
         for rel in EMPTY_DIRS:
             os.makedirs(os.path.join(self.base, rel), exist_ok=True)
+        # the letter-case siblings only mean something on a case-sensitive filesystem
+        self.case_sensitive = not os.path.samefile(self.root, os.path.join(self.base, "Root"))
 
 
 _tree = None
